@@ -11,7 +11,7 @@ PROPS = {
              "(3) length sweep around 64/512/4096/65536/83521/131072 x 6 fills. Each vector is built from a raw vector (all queries: every position and rank "
              "for families 1,3; run/word/block edges +-1 and EVERY rank for family 2; plus the out-of-range set A(.)) and must equal the vectors built by "
              "FromIterator<bool>, copy_bit_vec and From<SparseVector/RLVector>. A case is non-trivial when it has both set and unset bits; distinct = distinct bit sequences (hashed case keys).",
-        bounds={"quick": "N=12, d=2 (462 words), sweep 984 cases", "thorough": "N=17, d=3 (9723 words) + depth 4 over 8 letters (4096 words), sweep 1116 cases"},
+        bounds={"quick": "N=12, d=2 (462 words), sweep 984 cases", "thorough": "N=18, d=3 (9723 words) + depth 4 over 8 letters (4096 words), sweep 1116 cases"},
         require_counters={"quick": {"vectors_with_long_superblock(ones)": 1, "vectors_with_long_superblock(zeros)": 1, "vectors_with_long_and_short(ones)": 1},
                           "thorough": {"vectors_with_long_superblock(ones)": 1, "vectors_with_long_superblock(zeros)": 1, "vectors_with_several_long(ones)": 1}},
         assumptions=[HOOK_ASSUMPTION, MODEL_ASSUMPTION, "bitvectors longer than ~330 000 bits are outside the explored space"],
@@ -38,7 +38,7 @@ PROPS["C05"] = dict(
          "pop_bit, pop_int incl. wider than the content, set_bit, set_int incl. word-straddling, resize up/down across word boundaries, clear, reserve; push/pop/set/resize/clear/reserve/pack/extend "
          "with values wider than the item width). After every transition: return value, len/width, every bit/item, iterators, and the canonical-state oracle (== a freshly built vector, identical bytes, same count of set bits). "
          "States are deduplicated on the real object's full representation (len, width, words); a state is non-trivial/distinct when its representation was not seen before in the same BFS.",
-    bounds={"quick": "depth 4, reduced value alphabet, 12 raw + 59 int initial states (10 widths)", "thorough": "depth 4 full alphabet + depth 5 reduced alphabet, 12 raw + 331 int initial states (all 64 widths)"},
+    bounds={"quick": "depth 4, reduced value alphabet, 12 raw + 59 int initial states (10 widths)", "thorough": "depth 4 full alphabet + depth 5 reduced alphabet (+ raw depth 5 with the all-ones value, int depth 6 at widths 1/7/8/33/63/64), 12 raw + 331 int initial states (all 64 widths)"},
     assumptions=[HOOK_ASSUMPTION, "states reachable from several initial states are counted once per initial state (each BFS has its own seen-set)", "set_bit/set_int beyond len and capacity values are not part of the property and not checked"],
 )
 MANIFEST_TEXT["C05"] = dict(engine="E-hist", design_ref="DESIGN.md §4 C05",
@@ -87,7 +87,7 @@ PROPS["C04"] = dict(
          "inverse_select at every index <= len+1 and A(len); for every value of the alphabet (or the present values and their neighbours) plus max+1, 2^w, 2^w+1, 2^63, u64::MAX: contains, value_iter, rank / predecessor / successor at every "
          "index, select / select_iter at every rank <= count+1 and A(.); core: map_down, map_down_with, map_down_with_two_positions, map_up_with against the stable sort by reversed bit representation. "
          "Non-trivial = at least two distinct values; distinct by hashed vector.",
-    bounds={"quick": "(w,L) in (1,8) (2,5) (3,4) (4,3); k <= 8 at depth 4, k in {12,16} at depth 2", "thorough": "(w,L) in (1,12) (2,7) (3,5) (4,4); k <= 16 at depth 4"},
+    bounds={"quick": "(w,L) in (1,8) (2,5) (3,4) (4,3); k <= 8 at depth 4, k in {12,16} at depth 2", "thorough": "(w,L) in (1,13) (2,8) (3,5) (4,5) (5,3); k <= 16 at depth 4"},
     require_counters={"quick": {"vectors_with_missing_alphabet_values": 100}, "thorough": {"vectors_with_missing_alphabet_values": 100}},
     assumptions=[HOOK_ASSUMPTION, "reference = Vec<u64> with linear scans", "widths above 16 with dense alphabets and vectors longer than 12 are not explored"],
 )
@@ -104,7 +104,7 @@ PROPS["C06"] = dict(
          "BitVector / SparseVector / RLVector of <= N bits. For each x: bytes written == 8*size_in_elements == size_in_bytes; load consumes exactly those bytes, equals x, re-serializes identically and answers the query sets of C01-C04; "
          "also through 1/3/7/8/9-byte short-read readers and 1/3/7-byte short-write sinks; size_by_params for Raw/IntVector over boundary (capacity, width) sets. Every ordered pair (thorough: every triple over 24 values) "
          "written back to back loads in sequence with the reader ending exactly at the end. Non-trivial = more than one element; distinct by hashed descriptor / descriptor tuple.",
-    bounds={"quick": "144-value catalogue, N=8, 20 736 pairs", "thorough": "extended catalogue (all widths, all byte lengths, multi-superblock vectors), N=10, all pairs, 13 824 triples"},
+    bounds={"quick": "144-value catalogue, N=8, 20 736 pairs", "thorough": "extended catalogue (all widths, all byte lengths, multi-superblock vectors), N=12, all pairs, 46 656 triples"},
     assumptions=[HOOK_ASSUMPTION, MODEL_ASSUMPTION],
 )
 MANIFEST_TEXT["C06"] = dict(engine="E-input", design_ref="DESIGN.md §4 C06",
@@ -133,12 +133,12 @@ PROPS["C16"] = dict(
          "the largest that fits, one more than fits, usize::MAX}, set_len below/at/above the length. After every call: accepted/refused exactly as the reference says; a refused call leaves the Debug rendering byte-identical; "
          "len/next_index/is_full/is_empty/count_ones/count_zeros exact; conversion of a clone succeeds iff allowed and yields exactly the accepted positions / merged runs (also after completing a clone with the smallest admissible indices). "
          "States deduplicated on the builder's Debug rendering; distinct = distinct renderings per BFS.",
-    bounds={"quick": "depth 4", "thorough": "depth 5"},
+    bounds={"quick": "depth 4", "thorough": "depth 6"},
     assumptions=[HOOK_ASSUMPTION, "extend with a list that becomes invalid after a valid prefix is not explored (what is accepted before the panic is not specified)"],
 )
 MANIFEST_TEXT["C16"] = dict(engine="E-hist", design_ref="DESIGN.md §4 C16",
     technique="explicit-state breadth-first exploration of builder call sequences on the real builders, reference model of accepted calls, side-effect oracle on the Debug rendering",
-    level_text="All sequences of valid and invalid calls up to depth 4/5 over 60 sparse parameter sets and the run-length builder; every transition executed on the real builder; every reached state converted and compared with the accepted positions.",
+    level_text="All sequences of valid and invalid calls up to depth 4/6 over 60 sparse parameter sets and the run-length builder; every transition executed on the real builder; every reached state converted and compared with the accepted positions.",
     level_note="Histories longer than the bound and parameters outside the alphabet are not explored.")
 
 PROPS["C14"] = dict(
@@ -213,7 +213,7 @@ PROPS["C09"] = dict(
          "select_zero_iter, predecessor, successor; Iterator::nth / nth_back(k) for k in A(remaining) on every iterator kind after 0, 1 and 2 consumed items (result, exact size hint afterwards, the next items); wavelet matrices over small "
          "alphabets with A(.) x (present, absent, outside-the-alphabet values incl. u64::MAX) in every position of rank/select/select_iter/inverse_select/predecessor/successor/contains, and WMCore map_down/map_down_with/map_up_with over all "
          "(index, value); constructors with widths {0,1,13,64,65,2^20,MAX}, SparseBuilder::new with ones > universe, RLBuilder::try_set with start+len overflowing. No call may panic. Distinct by hashed structure.",
-    bounds={"quick": "N=6; WM scopes (1,6) (2,4) (3,3) (4,2)", "thorough": "N=8; WM scopes (1,8) (2,5) (3,4) (4,3)"},
+    bounds={"quick": "N=6; WM scopes (1,6) (2,4) (3,3) (4,2)", "thorough": "N=10; WM scopes (1,10) (2,6) (3,4) (4,3)"},
     assumptions=[HOOK_ASSUMPTION, MODEL_ASSUMPTION, "documented 'may panic' cases (get(i >= len), with_len whose len*width overflows) are not checked; WMCore with values >= 2^width is only required not to panic"],
 )
 MANIFEST_TEXT["C09"] = dict(engine="E-input", design_ref="DESIGN.md §4 C09",
@@ -242,7 +242,7 @@ PROPS["C15"] = dict(
          "for universes 64..2^20 (the low width the parameter rule picks); SparseVector::try_from_iter over EVERY sequence (sorted or not) of length <= L over 0..A. Checked: len, count_ones, is_multiset, select / select_iter at every rank and A(.), "
          "get, rank, successor (first occurrence) and predecessor (last occurrence) as full iterators at every position and A(.), one_iter and the bit iterator forward, reversed and at every forward/backward split point; try_from_iter accepts exactly "
          "the non-decreasing sequences, sizes the universe to last+1 and equals the multiset builder's vector. Zero-side queries are not checked (documented as not meaningful for multisets). Non-trivial = has duplicates or is a try_from_iter sequence.",
-    bounds={"quick": "U=6, K=7; L=5 over 0..6 (9 331 sequences)", "thorough": "U=8, K=9; L=6 over 0..7"},
+    bounds={"quick": "U=6, K=7; L=5 over 0..6 (9 331 sequences)", "thorough": "U=9, K=10; L=7 over 0..8"},
     require_counters={"quick": {"overfull_cases": 10, "cases_with_duplicates": 100}, "thorough": {"overfull_cases": 10, "cases_with_duplicates": 100}},
     assumptions=[HOOK_ASSUMPTION, "reference = sorted Vec<usize> with linear scans"],
 )
@@ -257,7 +257,7 @@ PROPS["C11"] = dict(
          "EVERY conversion chain of 1..3 conversions: 42 chains by From (consecutive types differ) and 117 chains by copy_bit_vec (any type to any type incl. itself). The result must have the reference length and set positions, be == the structure "
          "the target type's own builder produces from the same bits, and serialize to identical bytes. Builder decompositions: every run list of <= 3 runs of length <= R (gaps 0/1/2) x EVERY composition of each run into adjacent try_set pieces "
          "(down to bit at a time) x {no set_len, set_len(current length) before every run, set_len(next start) before every run} x tail {0, 2}: the RLVector must be the canonical one. Non-trivial = has set and unset bits / any decomposition.",
-    bounds={"quick": "N=10, R=4", "thorough": "N=12, R=5"},
+    bounds={"quick": "N=10, R=4", "thorough": "N=14, R=6"},
     assumptions=[HOOK_ASSUMPTION, MODEL_ASSUMPTION, "BitVector construction routes from a raw vector / bool iterator are compared in C01"],
 )
 MANIFEST_TEXT["C11"] = dict(engine="E-input", design_ref="DESIGN.md §4 C11",
@@ -272,7 +272,7 @@ PROPS["C13"] = dict(
          "a view (MappedSlice / MappedBytes / MappedStr / MappedOption / RawVectorMapper / IntVectorMapper) at each structure start that lies entirely inside the file exposes exactly the content load would give "
          "(all bit/int/word/get/iter accessors), map_offset() is the start and map_offset()+map_len() is the next structure's offset; a view of a structure that is cut short or starts beyond the end is refused with Err. "
          "For the intact file every view type at offsets {len, len+1, 2len, 2^63, MAX-1, MAX} is refused with Err (no panic). Distinct = distinct files.",
-    bounds={"quick": "58-value mappable catalogue: 348 single-value files, 3 364 pairs, ~1 700 triples; 35 000 cut structures", "thorough": "extended catalogue (all widths, all byte lengths), all pairs, 8 000 triples"},
+    bounds={"quick": "58-value mappable catalogue: 348 single-value files, 3 364 pairs, ~1 700 triples; 35 000 cut structures", "thorough": "extended catalogue (all widths, all byte lengths), all pairs, ~27 000 triples"},
     require_counters={"quick": {"cut_structures": 1000}, "thorough": {"cut_structures": 1000}},
     assumptions=[HOOK_ASSUMPTION, "files are written by the library's own serialization (the property is about library-written files)"],
 )
@@ -289,7 +289,7 @@ PROPS["C19"] = dict(
          "reaches the full subset equals the fully enabled original. Composites: SparseVector files at every admissible low width and WaveletMatrix / WMCore files are written by the independent codec with NO support structures in any embedded "
          "bitvector, and must load, equal the built value and answer all queries. skip_option over [optional, sentinel] for every catalogue value through readers of chunk size 1/3/7/8/9/4095/unbounded must leave the reader exactly at the sentinel; "
          "absent_option writes absent_option_size() elements. Distinct = states + files + (value, chunk) pairs.",
-    bounds={"quick": "N=7 (255+7 bitvectors x 16 states), sparse files for all sets <= 6 bits x all widths, WM scopes (1,6) (2,4) (3,3) (4,2)", "thorough": "N=9, sparse <= 8 bits, WM scopes (1,8) (2,5) (3,4) (4,3), extended catalogue"},
+    bounds={"quick": "N=7 (255+7 bitvectors x 16 states), sparse files for all sets <= 6 bits x all widths, WM scopes (1,6) (2,4) (3,3) (4,2)", "thorough": "N=11, sparse <= 10 bits, WM scopes (1,8) (2,5) (3,4) (4,3), extended catalogue"},
     require_counters={"quick": {"sparse_files_at_the_library_width": 10}, "thorough": {"sparse_files_at_the_library_width": 10}},
     assumptions=[HOOK_ASSUMPTION, MODEL_ASSUMPTION, "the independent codec in harness/vcore/src/spec.rs (written from SERIALIZATION.md) produces the support-free files"],
 )
@@ -306,7 +306,7 @@ PROPS["C07"] = dict(
          "stored ones = actual, exactly one bucket per universe slice, w >= 1, 4-bit units with whole runs per 64-unit block, zero padding only in closed blocks and none in the final block, maximal runs, samples per block at minimal width, data width 4, "
          "wavelet-matrix width = bit_len(max), first[v] = first position or len, minimal width of first). Direction 2: files encoded by the codec with every admissible writer choice - all support structures absent, EVERY low width 1..bit_len(n)+1 for "
          "sparse vectors, every sample width from minimal to 64 for run-length vectors - must load and answer the full query sets (and equal the built value where the document determines the content). Greedy block packing is counted, not required. Distinct by hashed case.",
-    bounds={"quick": "N=10 (direction 1), 8 (direction 2); WM scopes (1,8) (2,5) (3,3) (4,2)", "thorough": "N=12 / 10; WM scopes (1,9) (2,6) (3,4) (4,3); all 64 sample widths for every vector"},
+    bounds={"quick": "N=10 (direction 1), 8 (direction 2); WM scopes (1,8) (2,5) (3,3) (4,2)", "thorough": "N=14 / 11; WM scopes (1,9) (2,6) (3,4) (4,3); all 64 sample widths for every vector"},
     require_counters={"quick": {"direction1_library_written_files": 1000, "direction2_document_written_files": 1000}, "thorough": {"direction1_library_written_files": 1000, "direction2_document_written_files": 1000}},
     assumptions=[HOOK_ASSUMPTION, MODEL_ASSUMPTION, "my reading of SERIALIZATION.md as implemented in spec.rs; rank/select support structures are implementation-dependent per the document and only checked for whole elements"],
 )
